@@ -5,7 +5,8 @@ from vf.props import _lock as L
 ID = 'C02'
 LEVEL = 'exploration'
 SHARD_TIMEOUT = L.SHARD_TIMEOUT
-FAMILY = ('ls', 'ldrex', 'strex')
+# ... and the single-register PUSH / POP encodings, which ARE `STR Rt, [SP, #-4]!` / `LDR Rt, [SP], #4` (selected by row name)
+FAMILY = ('ls', 'ldrex', 'strex', '=push_a2', '=pop_arm_a2', '=push_t3', '=pop_thumb_t3')
 RULE = ('case = (word from one reference row of an LDR/STR-family encoding incl. B/H/SB/SH/D, literal, register-offset with '
         'every shift, T-variants, exclusives; all P/U/W), random valid state with address-like register values (next to 0, '
         'next to 2^32 where a RAM device ends, device boundaries, alignment 0..3), CPSR.E random, SCTLR.A/U random on '
